@@ -1,0 +1,9 @@
+//go:build !verif
+
+package verifhook
+
+// Point is a no-op without the verif build tag.
+func Point(name, key string) {}
+
+// PointV is a no-op without the verif build tag.
+func PointV(name string, v interface{}) {}
